@@ -480,6 +480,24 @@ def m_hex(eng, st, args, kw, fr):
 
 
 def m_range(eng, st, args, kw, fr):
+    if has_sym(list(args)) and not eng.abstract and all(isinstance(a, (int, SInt)) and not isinstance(a, bool) for a in args):
+        # symbolic bounds whose feasible values are few: fork on the concrete values (each fork is an ordinary concrete range)
+        outs = [(st, [])]
+        for a in args:
+            nxt = []
+            for s0, vals in outs:
+                if isinstance(a, int):
+                    nxt.append((s0, vals + [a]))
+                    continue
+                lo, hi = bounds(a)
+                if hi - lo > 6:
+                    raise Unsupported('range with a symbolic bound of wide range')
+                for v in range(lo, hi + 1):
+                    c = zt(a) == bvv(v)
+                    if eng.feasible(s0.pc, c):
+                        nxt.append((s0.fork(c), vals + [v]))
+            outs = nxt
+        return [(s0, NORMAL, range(*vals)) for s0, vals in outs]
     if has_sym(list(args)):
         raise Unsupported('range with symbolic bound')
     if has_unknown(list(args)):
